@@ -1,5 +1,6 @@
 """C15 — configuration text is parsed robustly and line-independently."""
 from lib import *  # noqa
+import outinit
 import ownrules
 
 TECHNIQUE = ("heap-ownership typestate over the configuration parsers, value-set abstract interpretation of the line callbacks' return values "
@@ -715,3 +716,4 @@ def run(prog, R, tier):
     r_empty(prog, R)
     r_num(prog, R)
     r_lineloop(prog, R)
+    outinit.outinit_rule(prog, R, "R-C15-OUTINIT", floor=10)
